@@ -88,7 +88,7 @@ CHECKS = {
         "rule": "one run = one (protocol, cipher, tcp/tls/ws/wss) cell, a canary flow before the faults (must pass, else the run does not count), then a sequence of faults from the catalogue "
                 "(every fault alone in the first 40 seeds of each block of 80, sequences of 2-5, thorough -8, in the rest): connect-and-close against client or server, stalled local SOCKS5/HTTP handshake, "
                 "partial TLS ClientHello / partial WebSocket upgrade / garbage / nothing sent to the server and held open, garbage then close, flows to refused / unresolvable / black-holed targets, "
-                "flows reset by application or target in mid-transfer, accept() failing with EMFILE on the client's or server's listener. The stalled connections stay open while a fresh canary SOCKS5 echo flow "
+                "flows reset by application or target in mid-transfer, accept() failing with EMFILE on the client's or server's listener, a flood of 17-70 connections that send a partial TLS hello / partial upgrade / nothing and stay open, (QUIC) a client whose return path is a black hole so that its handshake stays pending on the server. A fresh flow must also be served as promptly as before the faults (not more than 15 simulated seconds later: somebody else's stalled handshake is no reason to wait). The stalled connections stay open while a fresh canary SOCKS5 echo flow "
                 "must be served within 60 simulated seconds; listeners must still be bound and no main() may have returned. non-trivial = canary passed before the faults; distinct = (fault multiset, cell, poll order). "
                 "Datagram part (generator C08udp): one run = one UDP-capable cell (Shadowsocks over udp x 7 ciphers with / without users, VMess over tcp/tls/ws/wss, Trojan over tls/wss), a canary datagram exchange, then 1-5 (thorough -8) datagram faults: "
                 "malformed local SOCKS5-UDP datagrams (12 shapes: empty, short, FRAG != 0, unknown address types with >= 5 bytes, truncated addresses, bad names), random / replayed / bit-flipped / truncated / empty datagrams to the server's port, "
@@ -118,6 +118,7 @@ CHECKS = {
             {"gen": "C11model", "quick": 160, "thorough": 3200},
             {"gen": "C11", "quick": 1600, "thorough": 32000},
             {"gen": "C11srv", "quick": 800, "thorough": 8000},
+            {"gen": "C11roam", "quick": 120, "thorough": 1200},
         ],
         "rule": "three parts. (a) exhaustive: every sequence of length 2..5 over the 14-value boundary alphabet {0,1,63,64,65,8127,8128,8129,8191,8192,8193,16389,2^64-2,2^64-1} x limits {2^64-1, 8192, 65}, "
                 "the real PacketWindowFilter compared step by step with a set-based reference model (accept iff id < limit and (id > max or (max - id <= 8128 and id not seen))). "
@@ -127,13 +128,14 @@ CHECKS = {
                 "evaluations = sequences compared + system runs; non-trivial/distinct = distinct histories or (plan, poll order).",
         "real": ["octo_squirrel::manager::packet_window::PacketWindowFilter (a, b)"] + REAL_SYSTEM, "stub": STUB_SYSTEM,
         "assumptions": ASSUME_SYSTEM + ["the reference model is the harness's reading of the property statement (window 8128, limit exclusive)", "packet ids near 2^64 are exercised at component level and by C12's exhaustion part",
-                                        "generator C11srv (the client's side of the rule): a reference *server* answers the real client's datagram session with a scripted arrival order of (server session, packet id) pairs - two server sessions interleaved (restart / expired association with stragglers of the old session still in flight), duplicates, ids behind the window, gaps, jumps beyond the ring; what the application receives is compared step by step with the predicate kept per server session"],
+                                        "generator C11srv (the client's side of the rule): a reference *server* answers the real client's datagram session with a scripted arrival order of (server session, packet id) pairs - two server sessions interleaved (restart / expired association with stragglers of the old session still in flight), duplicates, ids behind the window, gaps, jumps beyond the ring; what the application receives is compared step by step with the predicate kept per server session",
+                                        "generator C11roam: the in-path attacker scenario - a datagram whose id was accepted must stay refused when the same datagram arrives again from another source address"],
     },
     "C16": {
         "level": "fault_enumeration",
-        "parts": [{"gen": "C16", "quick": 634, "thorough": 634, "exhaustive": True}],
+        "parts": [{"gen": "C16", "quick": 664, "thorough": 664, "exhaustive": True}],
         "exhaustive_claim": True,
-        "rule": "exhaustive over the documented names (634 cases, the seed is the case index): every cipher name (7 + the chacha20-ietf-poly1305 alias) x every server mode (tcp, udp, tcp_and_udp, quic, tcp_and_quic), "
+        "rule": "exhaustive over the documented names (664 cases, the seed is the case index): every cipher name (7 + the chacha20-ietf-poly1305 alias) x every server mode (tcp, udp, tcp_and_udp, quic, tcp_and_quic), "
                 "default modes, every client mode x protocol, every Shadowsocks-2022 key length 0..48 bytes as client password, server password and user-table key, and 26 undocumented cipher / protocol / mode strings "
                 "or missing ciphers on either side (for Shadowsocks entries and, the cipher names, for VMess and Trojan entries too); transport sections ssl, ws, ssl+ws and quic (incl. the quic / tcp_and_quic server modes with a QUIC endpoint in the registry and datagrams over quic); Shadowsocks-2022 key lists of 1-4 keys whose identity-header chain on stream and datagram is compared with the one the reference computes. Each case boots the real client and server main() with that JSON. Oracle: the TCP listeners and UDP sockets in the simulated registry equal the documented set for the mode, "
                 "a canary TCP flow and/or UDP exchange works over them, undocumented names and wrong-length keys leave the affected side not serving and its main() ended; never a panic.",
@@ -212,12 +214,13 @@ CHECKS = {
         "parts": [{"gen": "C09", "quick": 640, "thorough": 12800, "quick_deadline_s": 420, "thorough_deadline_s": 3000},
                   {"gen": "C09udp", "quick": 1200, "thorough": 24000},
                   {"gen": "C09sid", "quick": 400, "thorough": 8000},
+                  {"gen": "C09hostile", "quick": 1600, "thorough": 16000},
                   {"engine": "shuttle", "quick": 20000, "thorough": 1000000},
                   {"engine": "miri", "quick": 6, "thorough": 96}],
         "rule": "two engines. Task level (simnet): a batch of 2-8 (10%: 9-24, thorough -64) concurrent TCP flows through the real client and server over a cycling (protocol, cipher, tcp/tls/ws/wss) cell with drawn network knobs is run once all together "
                 "and once per flow alone (same seed, same slot); each flow's observable result (handshake, number of dials to its target, bytes and integrity each way, how each end saw it finish) must be identical. "
                 "Thread level (shuttle, hook H6): 2-4 threads under shuttle's seeded random and PCT schedulers each decode a reference-built Shadowsocks-2022 request with the real server-side decoder against one shared Context (salt cache): "
-                "the same request (at most one - and exactly one - acceptance), distinct requests (all accepted), a mix; never a panic. Further simnet parts: datagram sessions of several applications together versus alone, and every (local socket, target) session of an application alone versus with the application's other sessions (C09udp); sessions that present the same session id under different keys / users (C09sid). Miri part: three threads encode / decode 2022 datagrams through the process-wide cipher cache. evaluations = flows compared + schedules; distinct = (plan, poll order) hashes + distinct thread orders.",
+                "the same request (at most one - and exactly one - acceptance), distinct requests (all accepted), a mix; never a panic. Further simnet parts: datagram sessions of several applications together versus alone, and every (local socket, target) session of an application alone versus with the application's other sessions (C09udp); sessions that present the same session id under different keys / users (C09sid). C09hostile: a fresh flow next to misbehaving peers (the fault catalogue of C08, stalled connections held open, floods of stalled handshakes, a QUIC handshake whose return path is a black hole): alone it is served, promptly - next to them it must be served just as it would have been alone. Miri part: three threads encode / decode 2022 datagrams through the process-wide cipher cache. evaluations = flows compared + schedules; distinct = (plan, poll order) hashes + distinct thread orders.",
         "real": REAL_SYSTEM + ["shuttle part: octo_squirrel::codec::shadowsocks::tcp::{Context, AEADCipherCodec} built from /repo's sources through a shadow manifest"],
         "stub": STUB_SYSTEM + ["shuttle part: std::sync::Mutex of the salt cache -> shuttle::sync::Mutex; wall clock is the real one there"],
         "assumptions": ASSUME_SYSTEM + ["real parallel execution of whole relay tasks on tokio's multi-thread scheduler is not covered: flows share no mutable state besides the salt cache (shuttle) and the UDP cipher cache", "the datagram cipher cache is covered at thread level by the Miri part (3 threads, real SessionCodec, seeded scheduler): aliasing violations and data races, not functional interleavings of whole sessions"],
